@@ -1902,7 +1902,25 @@ func (m *Monitors) c16State(n *Node, pre, post *raft.VerifState, c *Cause) {
 		}
 	}
 	// oracle 4: uncommitted size window
-	if n.mon.uwTerm != post.Term || n.mon.uwApplied != post.Applied {
+	// The window ends with the leadership and whenever an apply
+	// acknowledgement is processed: raft subtracts the payload of the
+	// acknowledged entries from its estimate even if they were appended
+	// before this leadership or lie at or below the applied index already (a
+	// lagging apply thread) - the estimate "may underestimate" by design
+	// (comment on reduceUncommittedSize), so only a span without any apply
+	// acknowledgement is one in which "the log cannot advance".
+	applyAck := false
+	switch c.Kind {
+	case "advance":
+		for _, a := range pre.StepsOnAdvance {
+			if a != nil && a.GetType() == pb.MsgStorageApplyResp && len(a.GetEntries()) > 0 {
+				applyAck = true
+			}
+		}
+	case "self":
+		applyAck = c.Msg != nil && c.Msg.GetType() == pb.MsgStorageApplyResp && len(c.Msg.GetEntries()) > 0
+	}
+	if n.mon.uwTerm != post.Term || n.mon.uwApplied != post.Applied || applyAck {
 		n.mon.uwSum, n.mon.uwFirst, n.mon.uwTerm, n.mon.uwApplied = 0, 0, post.Term, post.Applied
 	}
 	if c.Kind == "propose" || (c.Kind == "deliver" && c.Flight.M.GetType() == pb.MsgProp) {
